@@ -83,3 +83,106 @@ func ExitProduct(do func(id string, c Case), states string, withSecond bool) {
 		}
 	}
 }
+
+// PairProduct (C07): two sessions in one VRF, over the kinds {eBGP, iBGP non-client, iBGP RR client} x
+// {same, different local AS} x {same, different, zero cluster id}; session 1 is established with a route
+// and stays; session 0 is established with routes and flaps twice through one kind of exit; after each
+// flap paths carrying session 1's local AS / cluster id are announced on session 1 (loop detection must
+// still hide them) and an ordinary route (must still be installed).
+func PairProduct(do func(id string, c Case)) {
+	type kind struct {
+		name string
+		ibgp bool
+		rr   bool
+	}
+	kinds := []kind{{"ebgp", false, false}, {"ibgp", true, false}, {"rrc", true, true}}
+	exits := []string{"e2", "e8", "hp1", "brk ka", "m:N,6,2", "m:H,0,19,4,0", "m:B,uat", "m:O,4,65002,90,7,-", "m:H,1,18,4,0"}
+	mk := func(k kind, las uint32, pasE uint32, cluster uint32, rid int) (cfg string, open string, pas uint32) {
+		pas = pasE
+		if k.ibgp {
+			pas = las
+		}
+		rr := "0"
+		if k.rr {
+			rr = "1"
+		}
+		cfg = fmt.Sprintf("s%d/%d/%d/90/46/0000/0/00/%s.%d/A/i", las, pas, rid, rr, cluster)
+		a16 := pas
+		if a16 > 65535 {
+			a16 = 23456
+		}
+		open = fmt.Sprintf("O,4,%d,90,%d,a%d+m2.1", a16, 40+rid, pas)
+		return
+	}
+	n := 0
+	for _, k0 := range kinds {
+		for _, k1 := range kinds {
+			for _, las1 := range []uint32{65001, 65010} { // session 0 always uses 65001
+				for _, cl := range [][2]uint32{{5, 5}, {5, 6}, {0, 0}, {5, 0}, {0, 5}} {
+					c0, o0, _ := mk(k0, 65001, 65002, cl[0], 10)
+					c1, o1, _ := mk(k1, las1, 65003, cl[1], 11)
+					cid1 := cl[1]
+					if cid1 == 0 {
+						cid1 = 11
+					}
+					up1 := "1.e1 1.up 1.m:" + o1 + " 1.m:K 1.m:U,3,-"
+					up0 := "0.e1 0.up 0.m:" + o0 + " 0.m:K 0.m:U,1.2,-"
+					probe := fmt.Sprintf("1.m:P,4,a,%d 1.m:P,0,c,%d 1.m:U,2,- 1.m:P,1,a,65099", las1, cid1)
+					for xi, ex := range exits {
+						var evs []string
+						for _, t := range strings.Fields(ex) {
+							evs = append(evs, "0."+t)
+						}
+						exit := strings.Join(evs, " ")
+						in := strings.Join([]string{c0, c1, up1, up0, exit, probe, up0, exit, probe}, " ")
+						c, err := ParseCase(in)
+						if err != nil {
+							fmt.Printf("HARNESS-ERROR pair product %q: %v\n", in, err)
+							return
+						}
+						do(fmt.Sprintf("pair-%s-%s-%d-%d.%d-x%d", k0.name, k1.name, las1, cl[0], cl[1], xi), c)
+						n++
+					}
+				}
+			}
+		}
+	}
+}
+
+// CapabilityProduct (C22): every combination of the PeerConfig knobs that decide the capability list
+// (IPv4/IPv6 present, add-path receive/send per family, NextHopExtended, AdvertiseIPv4MultiProtocol,
+// 2-/4-octet local AS, role on/off) against a peer OPEN that advertises everything and one that
+// advertises nothing but its AS.
+func CapabilityProduct(do func(id string, c Case)) {
+	for _, fams := range []string{"4", "6", "46"} {
+		for ap := 0; ap < 16; ap++ {
+			for mpnx := 0; mpnx < 4; mpnx++ {
+				for _, las := range []uint32{65001, 200000} {
+					for _, role := range []string{"00", "10"} {
+						apS := fmt.Sprintf("%04b", ap)
+						if !strings.Contains(fams, "4") && (ap&0xc != 0 || mpnx != 0) {
+							continue
+						}
+						if !strings.Contains(fams, "6") && ap&0x3 != 0 {
+							continue
+						}
+						cfg := fmt.Sprintf("s%d/65002/10/90/%s/%s/%d%d/%s/0.0/A/i", las, fams, apS, mpnx&1, mpnx>>1, role)
+						peerRole := ""
+						if role != "00" {
+							peerRole = "+r3"
+						}
+						for pi, caps := range []string{"a65002+m1.1+m2.1+p1.1.3+p2.1.3+x1.1.2" + peerRole, "a65002"} {
+							in := fmt.Sprintf("%s 0.e1 0.up 0.m:O,4,65002,30,7,%s 0.m:K", cfg, caps)
+							c, err := ParseCase(in)
+							if err != nil {
+								fmt.Printf("HARNESS-ERROR capability product %q: %v\n", in, err)
+								return
+							}
+							do(fmt.Sprintf("caps-%s-%s-%d-%d-%s-%d", fams, apS, mpnx, las, role, pi), c)
+						}
+					}
+				}
+			}
+		}
+	}
+}
